@@ -14,8 +14,3 @@ func cmdReplay(args []string) int {
 	fmt.Println("replay: not implemented yet")
 	return 0
 }
-
-func cmdSelftest(args []string) int {
-	fmt.Println("selftest: not implemented yet")
-	return 0
-}
